@@ -21,7 +21,7 @@ RULE = (
     "func_adl_callable processor and a func_adl_parameterized_call property (1-3 literal parameters), each optionally "
     "rewriting the call site (rename the method/function, append a constant argument); queries with uniquely marked call "
     "sites at depth 0-3 inside Select/Where/SelectMany lambdas of the stream and of typed collections, as the root of a "
-    "nested lambda body, inside arithmetic, tuples and dicts (keys that are identifiers or not: blanks, keywords, empty, repeated), across 1-2 stages; some registered callbacks unused. "
+    "nested lambda body, inside arithmetic, as positional or keyword argument of a registered / unregistered function, in tuples and dicts (keys that are identifiers or not: blanks, keywords, empty, repeated), across 1-2 stages; some registered callbacks unused. "
     "Non-trivial = >=2 callback sites with >=1 at depth >=2, or a rewrite at depth >=1. Distinct by placement + query."
 )
 ASSUMPTIONS = [
@@ -86,6 +86,11 @@ def _val(draw, var, cls, depth, names, ctr):
     if c == 7 and cls == "Jet":
         params = draw(st.sampled_from(["5", "'x'", "5, 'x'", "1, 2, 3", "'a', 2", "(1, 2)"]))
         return ["psite", ["var", var], params, mark()]
+    if c == 8 and draw(st.booleans()):
+        # the value is handed to a function, positionally or BY KEYWORD: an unregistered back-end function (left as written) or a
+        # registered one without processor (normalised to positional form); call sites inside the argument are still sites
+        inner = draw(_val(var, cls, depth - 1, names, ctr))
+        return ["wrap", draw(st.sampled_from(["sqrt", "fn3"])), draw(st.sampled_from(["pos", "kw", "kw", "kw2"])), inner]
     if c == 8:
         return ["bin", draw(st.sampled_from(["+", "*"])), draw(_val(var, cls, depth - 1, names, ctr)), draw(_val(var, cls, depth - 1, names, ctr))]
     return ["site", ["var", var], cls, _scalar_of(draw, cls), mark()]
@@ -179,6 +184,11 @@ def render(ir, cbs, mode):
         if rw == "drop":
             return f"fn2_s({marker})"
         return f"{_rw_method('fn2', rw)}({marker}, {second or '1.0'}{', 77' if rw == 'append' else ''})"
+    if k == "wrap":
+        _, fname, how, inner = ir
+        if fname == "sqrt" or mode == "written":
+            return {"pos": f"{fname}({R(inner)})", "kw": f"{fname}(x={R(inner)})", "kw2": f"{fname}(scale=2.0, x={R(inner)})"}[how]
+        return f"fn3({R(inner)}, {'2.0' if how == 'kw2' else '1.0'})"
     if k == "psite":
         _, recv, params, marker = ir
         if mode == "written":
@@ -228,6 +238,8 @@ def sites_of(ir, depth=0, root_of_lambda=False):
         yield from sites_of(ir[4], depth + 1, True)
     elif k in ("count", "first", "fld"):
         yield from sites_of(ir[1], depth)
+    elif k == "wrap":
+        yield from sites_of(ir[3], depth)
     elif k == "bin":
         yield from sites_of(ir[2], depth)
         yield from sites_of(ir[3], depth)
@@ -294,7 +306,9 @@ def build(cbs, log):
             src.append("    @property\n    def attr(self): ...")
     src.append("def fn(tag: int) -> float: ...")
     src.append("def fn2(tag: int, scale: float = 1.0) -> float: ...")
+    src.append("def fn3(x: float, scale: float = 1.0) -> float: ...")
     exec("\n".join(src), ns)
+    func_adl_callable(None)(ns["fn3"])
     func_adl_callable(mk("fn", cbs["fn"]) if cbs.get("fn") else None)(ns["fn"])
     func_adl_callable(mk("fn2", cbs["fn2"]) if cbs.get("fn2") else None)(ns["fn2"])
     return ns
